@@ -73,3 +73,8 @@ pub fn show_bytes(b: &[u8]) -> String {
         .map(|&c| if (32..127).contains(&c) { (c as char).to_string() } else { format!("\\x{:02x}", c) })
         .collect()
 }
+
+/// FNV-1a, for de-duplicating inputs when counting distinct non-trivial cases
+pub fn hash64(s: &str) -> u64 {
+    s.bytes().fold(14695981039346656037u64, |h, b| (h ^ b as u64).wrapping_mul(1099511628211))
+}
